@@ -9,6 +9,7 @@ PROPS = {
     'C03': ['SIZEEQ', 'WORKLIST', 'DRAIN', 'COW', 'FORWARD', 'COUNTGUARD', 'USEMOVE', 'ACCRET', 'KEPTRULES', 'COLLECTALL', 'ALPHASRC', 'COPYALL'],
     'C04': ['KIND', 'SIMMAP', 'COPYALL', 'LOOPBOUND', 'TUPLEPOS', 'FORWARD', 'KEYFIELDS', 'CLIOPT', 'INSETLABEL', 'PREPASS', 'USEDSTATES', 'REFSTABLE'],
     'C05': ['SIMMAP', 'KIND', 'LOOPBOUND', 'DRAIN', 'WORKLIST', 'SIZEEQ', 'COW', 'FORWARD', 'ACCRET', 'INSETLABEL', 'COPYALL', 'USEDSTATES', 'ALPHASRC'],
+    'C06': ['COMPL', 'ACDUAL', 'ALPHASRC', 'ACCRET', 'COLLECTALL', 'WORKLIST', 'SYMIDX', 'SIZEDINDEX', 'FALLOFF', 'COUNTGUARD', 'KEPTRULES', 'DRAIN'],
     'C07': ['DISPATCH', 'ACDUAL', 'FINCHK', 'MERGE', 'PARALLEL', 'COLLECTALL', 'CACHELIFE', 'SIBLING', 'FORWARD', 'QUEUEENDS', 'CLIOPT', 'SCRATCHRESET', 'GENPRE', 'DRAIN', 'FLAGRESET', 'TUPLEPOS'],
     'C08': ['UNIONCONTRIB', 'PRODUCT', 'WORKLIST', 'DRAIN', 'INIT', 'COLLECTALL', 'ARITY', 'TUPLEPOS', 'LOADROLE', 'FORWARD', 'USEMOVE', 'UNIONTRANSL', 'ACCRET', 'SCRATCHRESET', 'NULLPARAM', 'REINDEXALL', 'BACKTRACK'],
     'C09': ['DISPATCH', 'ACDUAL', 'FINCHK', 'MEMO', 'HASHEQ', 'ORDTOTAL', 'FORWARD', 'ADDRKEY', 'QUEUEENDS', 'CLIOPT', 'FLAGRESET', 'DRAIN', 'ITERINVAL', 'CONGRMATCH', 'REFSTABLE'],
@@ -78,6 +79,7 @@ FILTER = {
     ('C02', 'UNIONTRANSL'): r'explicit_tree', ('C08', 'UNIONTRANSL'): r'bdd_', ('C10', 'UNIONTRANSL'): r'explicit_finite',
     ('C14', 'COW'): r'explicit_tree', ('C14', 'KIND'): r'explicit_tree|explicit_finite|bdd_',
     ('C19', 'KIND'): r'explicit_tree', ('C19', 'TUPLEPOS'): r'sim',
+    ('C06', 'ACDUAL'): r'comp_down|explicit_tree_aut\.cc', ('C06', 'ALPHASRC'): r'comp_down|explicit_tree_aut\.cc', ('C06', 'ACCRET'): r'comp_down|explicit_tree_(useless|unreach)', ('C06', 'COLLECTALL'): r'comp_down|explicit_tree_(useless|unreach)', ('C06', 'WORKLIST'): r'comp_down|explicit_tree_(useless|unreach)', ('C06', 'SYMIDX'): r'comp_down|explicit_tree_aut\.cc', ('C06', 'SIZEDINDEX'): r'comp_down|explicit_tree_aut\.cc', ('C06', 'FORWARD'): r'comp_down|explicit_tree_aut\.cc', ('C06', 'FALLOFF'): r'comp_down|explicit_tree_(useless|unreach)', ('C06', 'COUNTGUARD'): r'comp_down|explicit_tree_(useless|unreach)', ('C06', 'KEPTRULES'): r'comp_down|explicit_tree_(useless|unreach)', ('C06', 'DRAIN'): r'comp_down|explicit_tree_(useless|unreach)',
 }
 
 # (property, rule) -> regex on the obligation id: only those clauses of the rule are attributed to the property
